@@ -33,8 +33,9 @@ TIME_LIMIT = {"quick": 900, "thorough": 3000}
 CASE_CPU_LIMIT = 60
 RULE = ("four case kinds. ops (3/5): a collection of 1-6 random variables in normal / joint-normal blocks of size 1-4 "
         "(entries: symbols, integers, dyadic rationals, zero covariances; levels IIV/IOV/RUV) and 3-7 operations from "
-        "unjoin / join (fill 0, numeric or symbolic fill, name template) / index by collection / subs (rename, swap, "
-        "numeric) / + distribution / + collection / create / JointNormalDistribution[...], each followed by the queries "
+        "unjoin / join (fill 0, numeric or symbolic fill, name template; rarely an empty, repeated or unknown name) / "
+        "index by collection / subs (rename, swap, numeric) / + distribution (rarely a duplicate name or unknown level) / "
+        "+ collection / create / JointNormalDistribution[sub-collection of a joint block], each followed by the queries "
         "names, covariance_matrix, get_covariance, variance_parameters. psd (1/5): symmetric dyadic-rational matrix, "
         "n=1-5, positive definite / singular PSD / indefinite / negative / large condition number, through "
         "nearest_positive_semidefinite, validate_parameters, nearest_valid_parameters, "
@@ -317,6 +318,7 @@ def corpus_cases():
          "sigma": "1/10", "eps": True, "seed": 10},
         {"kind": "ucp", "blocks": [], "thetas": [["3/2", "0", None]], "sigma": "1/10", "eps": True, "seed": 11},
         {"kind": "conv", "sd": ["2", "3"], "corr": [["1", "1/3"], ["1/3", "1"]], "tri": 10, "flat": ["1", "2", "3"], "seed": 12},
+        {"kind": "conv", "sd": ["2", "3"], "corr": [["1", "0"], ["0", "1"]], "tri": 3, "flat": ["1", "2", "3", "4", "5", "6"], "seed": 13},
     ]
 
 
@@ -663,7 +665,7 @@ def run_ops(case, drv):
                 for a in newnames:
                     if a in inds and len(new[nb[a]].names) != 1:
                         mon.append(M("unjoin-still-joint", f"{label}: {a} is still in block {new[nb[a]].names}"))
-            if kind == "join":
+            if kind == "join" and inds:
                 blk = {tuple(new[nb[a]].names) for a in inds}
                 if len(blk) != 1 or set(next(iter(blk))) != inds:
                     mon.append(M("join-block", f"{label}: joined variables are in blocks {sorted(blk)}"))
@@ -1017,6 +1019,21 @@ def run_conv(case, drv):
                 want = float(sd[i]) if i == j else float(corr[i][j])
                 if not close(float(sc[f"P{i}{j}"]), want, abs_=1e-15):
                     mon.append(M("parameters-sdcorr", f"parameters_sdcorr[P{i}{j}]={sc[f'P{i}{j}']}, expected {want}"))
+        if corr[1][0] == 0:
+            # the same block with the structural zero written as a number (what join(fill=0) produces)
+            var0 = [row[:] for row in var]
+            var0[1][0] = var0[0][1] = Expr.integer(0)
+            dist0 = JointNormalDistribution(tuple(f"x{i}" for i in range(n)), "IIV", Matrix([0] * n), Matrix(var0))
+            tags.append("conv:block-with-numeric-entry")
+            try:
+                with warnings.catch_warnings():
+                    warnings.simplefilter("ignore")
+                    sc0 = RandomVariables.create([dist0, other]).parameters_sdcorr(values)
+                if not close(float(sc0["P00"]), float(sd[0])):
+                    mon.append(M("parameters-sdcorr", f"parameters_sdcorr[P00]={sc0['P00']}, expected {float(sd[0])}"))
+            except ValueError as e:
+                mon.append(M("sdcorr-numeric-entry-error" if "no name" in str(e) else "internal-error",
+                             f"parameters_sdcorr raised ValueError('{e}') for a block with a numeric entry"))
         if not close(float(sc["PY"]), 2.5) or sc["TH"] != 3.0:
             mon.append(M("parameters-sdcorr", f"parameters_sdcorr: PY={sc['PY']} (expected 2.5), TH={sc['TH']} (expected 3.0)"))
     # triangular_root / flattened_to_symmetric
@@ -1115,12 +1132,12 @@ def run_ucp(case, drv):
             scale = modeling.calculate_ucp_scale(model)
             ucps = {p.name: 0.1 for p in model.parameters if not p.fix}
             back = modeling.calculate_parameters_from_ucp(model, scale, ucps)
-    except np.linalg.LinAlgError as e:
+    except Exception as e:      # whatever the real code raises here is a finding, not a harness error
         if not case["blocks"] or not case["eps"]:
-            mon.append(M("ucp-empty-level-error", f"calculate_ucp_scale raised LinAlgError for a model without "
-                         f"{'etas' if not case['blocks'] else 'epsilons'}: {e}"))
+            mon.append(M("ucp-empty-level-error", f"calculate_ucp_scale / calculate_parameters_from_ucp raised "
+                         f"{type(e).__name__} for a model without {'etas' if not case['blocks'] else 'epsilons'}: {e}"))
         else:
-            mon.append(M("internal-error", f"calculate_ucp_scale raised LinAlgError: {e}"))
+            mon.append(M("internal-error", f"calculate_ucp_scale / calculate_parameters_from_ucp raised {type(e).__name__}: {e}"))
         return {"k": k, "mon": mon, "tags": tags, "nontrivial": False}
     for p in model.parameters:
         if p.fix:
